@@ -8,6 +8,7 @@ import Tdgl.Scalar
 import Tdgl.Step
 import Tdgl.Operators
 import Tdgl.Update
+import Tdgl.MuBoundary
 import Tdgl.Runner
 import Tdgl.Reader
 import Tdgl.RunningState
@@ -293,6 +294,16 @@ def step (st : St) (line : String) : St × String :=
       | .converged _ _ it _ => (st, s!"converged {it}")
       | .failed it => (st, s!"failed {it}")
       | .outOfFuel => (st, "fuel")
+    | ["mub", nT], [reqs] =>
+      -- update_mu_boundary called with successive request vectors (nT densities each), comparison `!=` as coded;
+      -- answer: the value held on the boundary of every terminal after every call
+      let T := nat nT
+      let r := floats reqs
+      let calls := if T == 0 then 0 else r.size / T
+      let stepF := fun (acc : MuB Float × List String) (c : Nat) =>
+        let s' := muBoundaryWith (fun x y => x != y) acc.1 (fun t => r.getD (c * T + t) 0)
+        (s', acc.2 ++ (List.range T).map (fun t => b (s'.written t)))
+      (st, " ".intercalate ((List.range calls).foldl stepF ((MuB.init : MuB Float), [])).2)
     | ["onsite"], [e0s, e1s, dirs, qs, sites] =>
       -- one Cartesian component of Mesh.get_quantity_on_site at the listed sites
       let (e0, e1, d, q) := (nats e0s, nats e1s, floats dirs, floats qs)
